@@ -61,6 +61,14 @@ def make_plan(seed: int, tier: str, index: int) -> dict[str, Any]:
             last_t = doc["tempos"][-1][0]
             doc["tempos"].append([last_t + g.choice([1, 2, doc["resolution"], 3 * doc["resolution"] + 1]),
                                   g.choice(gen.BPM_POOL)])
+    if g.random() < 0.3:
+        # anchors that sit exactly on tempo changes (an anchored tempo change is still only as
+        # trustworthy as the tempo before it)
+        have = {t for t, _ in doc["anchors"]}
+        for t, _b in doc["tempos"]:
+            if t not in have and g.random() < 0.6:
+                doc["anchors"].append([t, g.randint(0, 9_000_000)])
+        doc["anchors"].sort()
     if g.random() < 0.35:
         # a trailing tempo event that governs nothing (so that "zero tempo, unused" occurs)
         far = max_tick(doc) + g.choice([1, 10, doc["resolution"], 5000])
@@ -296,6 +304,26 @@ def _concurrent_queries(chart: Any, base_chart: Any, zf: int, probe_ticks: list[
     return bad[0] if bad else None
 
 
+def _parse_replaced_path(first: str, second: str) -> Any:
+    import os
+    import pathlib
+    import shutil
+
+    from chartparse.chart import Chart
+    from detsim import env, simfs
+
+    fs = simfs.SimFS(os.path.join(env.scratch(), "simfs", f"c15-{os.getpid()}"))
+    fs.install()
+    try:
+        p = fs.put("song.chart", first.encode("utf-8"))
+        Chart.from_filepath(pathlib.Path(p))
+        fs.put("song.chart", second.encode("utf-8"))
+        return Chart.from_filepath(pathlib.Path(p))
+    finally:
+        fs.uninstall()
+        shutil.rmtree(fs.root, ignore_errors=True)
+
+
 def _parse(text: str, chunk: int | None) -> Any:
     from detsim import simfs, world
 
@@ -319,6 +347,7 @@ def execute(plan: dict[str, Any]) -> dict[str, Any]:
     counters = {"must_raise": 0, "may_parse": 0, "base": 0, "unspecified": 0, "queries": 0,
                 "may_parse_parsed": 0, "ok": 0, "n_a": 0, "pairs": 0, "pairs_must_raise": 0, "retries": 0,
                 "healthy_then_dropped_histories": 0, "carrier_chart_histories": 0,
+                "replaced_in_place_by_path": 0,
                 "concurrent_query_sessions": 0,
                 "short_reading_reader": 1 if plan.get("reader_chunk") else 0}
     nontrivial = []
@@ -406,8 +435,17 @@ def execute(plan: dict[str, Any]) -> dict[str, Any]:
                     counters["carrier_chart_histories"] += 1
             except BaseException:  # noqa: BLE001 - the carrier is only history, never judged
                 pass
+        by_path = (label == "must-raise" and base_text is not None and c["kind"] == "swap_tempo"
+                   and len(text.encode("utf-8")) == len(base_text.encode("utf-8")))
         try:
-            chart = _parse(text, plan.get("reader_chunk"))
+            if by_path:
+                # disk history: the healthy file is loaded by path, then REPLACED IN PLACE by the
+                # corrupted one (same size; the simulation has no clock, so the same modification
+                # time), and loaded by path again
+                chart = _parse_replaced_path(base_text, text)
+                counters["replaced_in_place_by_path"] += 1
+            else:
+                chart = _parse(text, plan.get("reader_chunk"))
         except BaseException as e:  # noqa: BLE001
             err = e
         ev.update(f"{kind}:{'ok' if err is None else type(err).__name__};".encode())
